@@ -556,6 +556,43 @@ int main(int argc, char **argv) {
             };
             plan.stages.push_back(st);
         }
+        // (g) long significands whose extra digits are taken back by the exponent: d[.d..] followed by z zeros and e-(x+z);
+        //     0.<z zeros>d..e+(x+z); the written exponent goes far beyond +-324 while the value stays ordinary
+        {
+            vx::Stage st;
+            st.name   = "compensated-exponents";
+            st.chunks = 71; // x = -350 .. 350 step 10
+            st.fn     = [](int64_t chunk, vx::Ctx &ctx) {
+                static Bufs b;
+                const int   x0 = -350 + (int)chunk * 10;
+                for (int x = x0; x < x0 + 10 && x <= 350; x++) {
+                    for (int z : {1, 5, 17, 18, 19, 20, 21, 22, 25, 36, 37, 38, 40, 60, 100, 300, 330, 400}) {
+                        for (const char *d : {"1", "9", "12", "123456789", "12345678901234567890", "99999999999999999999"}) {
+                            if (!ctx.next()) {
+                                continue;
+                            }
+                            char e1[32], e2[32];
+                            snprintf(e1, sizeof e1, "e%d", x - z);
+                            snprintf(e2, sizeof e2, "e%+d", x + z);
+                            const std::string zs((size_t)z, '0');
+                            const std::string t1 = std::string(d) + zs + e1;                 // d000..0e(x-z)
+                            const std::string t2 = std::string(d) + "." + zs + e1;           // d.000..0e(x-z): zeros that do not scale
+                            const std::string t3 = "0." + zs + d + e2;                       // 0.000..0d e(x+z)
+                            const std::string t4 = std::string("-") + d + zs + "." + zs + e1;
+                            if (ctx.want_desc()) {
+                                ctx.describe(t1 + " | " + t3);
+                            }
+                            ctx.acc.count("states");
+                            check_all(t1, b, ctx, "g", (x & 1) == 0);
+                            check_all(t2, b, ctx, "g", false);
+                            check_all(t3, b, ctx, "g", (x & 1) == 0);
+                            check_all(t4, b, ctx, "g", false);
+                        }
+                    }
+                }
+            };
+            plan.stages.push_back(st);
+        }
         // (e) short strings over the numeral alphabet
         {
             static langx::Alphabet al;
